@@ -44,6 +44,12 @@ def _call(fn: Any) -> Any:
 def near_misses(s: str, rnd: random.Random, budget: int) -> list[str]:
     """Every single-character substitution (sampled), adjacent transposition, case flip, truncation, extension."""
     out = [s, s.upper(), s.lower(), s[:1].upper() + s[1:], s + "q", s + "1", " " + s, s[:-1], s[1:]]
+    # characters Unicode's case mapping takes to ASCII letters (U+212A KELVIN SIGN lowers to "k", U+017F LONG S uppers to "S", U+0130 lowers to "i" + a mark)
+    for ascii_c, uni in (("K", "\u212a"), ("k", "\u212a"), ("s", "\u017f"), ("S", "\u017f"), ("I", "\u0130"), ("i", "\u0131")):
+        for base in (s, s.upper()):
+            if ascii_c in base:
+                k_ = base.rindex(ascii_c)
+                out.append(base[:k_] + uni + base[k_ + 1:])
     alphabet = "qpzry9x8gf2tvdw0s3jn54khce6mua7l" + "bio1BO" + "123456789ABCDEFGHJKLMNPQRSTUVWXYZabcdefghijkmnopqrstuvwxyz"[::5]
     for i in range(len(s)):
         for c in rnd.sample(alphabet, 3) + [s[i].swapcase()]:
@@ -193,6 +199,38 @@ def record(run: Run, thorough: bool) -> list[dict[str, Any]]:
                     for fn, f2 in (("p2pkh", b58.p2pkh), ("p2wpkh", b32.p2wpkh), ("p2wpkh_p2sh", b58.p2wpkh_p2sh)):
                         r2 = _call(lambda: f2(key, d))
                         evs.append({"op": "keyaddr", "fn": fn, "kind": kind, "prefix": prefix, "sec": sec_bytes.hex(), "net": d, "out": out_of(r2, lambda v: {"v": hx(v)})})
+    # ---- a key that says nothing about compression (a point, a prepared point) or says it (SEC octets, WIF), with the caller asking for either form ----
+    from btclib.curves import PreparedPoint, secp256k1
+
+    qk = rnd.randrange(1, 2**255)
+    Pk = mult(qk)
+    for kname, keyobj, says in (("point", Pk, None), ("prepared point", PreparedPoint(Pk, secp256k1), None), ("sec compressed", sec_of(qk, True), True), ("sec uncompressed", sec_of(qk, False), False),
+                                ("wif compressed", b58.wif_from_prv_key(qk, "mainnet", True), True), ("wif uncompressed", b58.wif_from_prv_key(qk, "mainnet", False), False)):
+        for asked in (None, True, False):
+            want = says if asked is None else asked
+            r4 = _call(lambda: b58.p2pkh(keyobj, "mainnet", asked))
+            if says is not None and asked is not None and says != asked:
+                evs.append({"op": "keyaddr", "fn": "p2pkh", "kind": "wif", "prefix": "ef", "sec": "", "net": "mainnet", "out": out_of(r4, lambda v: {"v": hx(v)}), "what": f"{kname} asked as compressed={asked}"})   # a contradiction is refused
+                continue
+            evs.append({"op": "keyaddr", "fn": "p2pkh", "kind": "sec", "prefix": "", "sec": sec_of(qk, True if want is None else want).hex(), "net": "mainnet", "out": out_of(r4, lambda v: {"v": hx(v)}),
+                        "what": f"{kname} asked as compressed={asked}"})
+            r5 = _call(lambda: ScriptPubKey.p2pkh(keyobj, asked, "mainnet").address)
+            evs.append({"op": "keyaddr", "fn": "p2pkh", "kind": "sec", "prefix": "", "sec": sec_of(qk, True if want is None else want).hex(), "net": "mainnet", "out": out_of(r5, lambda v: {"v": hx(v)}),
+                        "what": f"ScriptPubKey.p2pkh of a {kname} asked as compressed={asked}"})
+    # ---- several keys in one script (p2ms): keys that name a network must name the same type, and the declared one when there is one ----
+    w_main, w_test = b58.wif_from_prv_key(qk, "mainnet", True), b58.wif_from_prv_key(qk + 1, "testnet", True)
+    x_main = bip32.xpub_from_xprv(bip32.rootxprv_from_seed(bytes(32), NETWORKS["mainnet"].bip32_prv))
+    x_test = bip32.xpub_from_xprv(bip32.rootxprv_from_seed(bytes(32), NETWORKS["signet"].bip32_prv))
+    spelled = {"sec": ("sec", "", sec_of(qk + 2)), "wif main": ("wif", "80", w_main), "wif test": ("wif", "ef", w_test), "xpub main": ("xpub", NETWORKS["mainnet"].bip32_pub.hex(), x_main),
+               "xpub test": ("xpub", NETWORKS["signet"].bip32_pub.hex(), x_test)}
+    for names in (("wif main", "wif test"), ("wif test", "wif main"), ("sec", "wif test"), ("sec", "wif main", "xpub test"), ("xpub main", "wif main"), ("xpub test", "wif test", "sec"), ("wif main", "sec", "xpub test"),
+                  ("sec", "sec")):
+        for d_ in ("", "mainnet", "testnet", "regtest"):
+            ks_ = [spelled[n_] for n_ in names]
+            if names == ("sec", "sec"):
+                ks_ = [("sec", "", sec_of(qk + 2)), ("sec", "", sec_of(qk + 3))]
+            r6 = _call(lambda: ScriptPubKey.p2ms(1, [k_[2] for k_ in ks_], d_ or None).script)
+            evs.append({"op": "multikey", "keys": [{"kind": k_[0], "prefix": k_[1]} for k_ in ks_], "declared": d_, "out": {"refused": r6[0] != "ok"}, "what": "+".join(names)})
     # ---- ScriptPubKey constructors on every network: the object remembers the network and spells its address there ----
     for net in NETS:
         q1, q2 = rnd.randrange(1, 2**255), rnd.randrange(1, 2**255)
@@ -251,7 +289,8 @@ def record(run: Run, thorough: bool) -> list[dict[str, Any]]:
                "label=x#frag", "label=x#&req-y=1", "#", "label=x?y", "message=caf\u00e9", "label=%e2%82%bf", "lightning=lnbc1&label=x&amount=2"]
     for q in queries:
         parse_ev(f"bitcoin:{a0}?{q}")
-    for text in [f"BITCOIN:{a0.upper()}?amount=1", f"BitCoin:{a0}", f"bitcoin://{a0}", f"bitcoin:{a0}#frag", f"bitcoin:?amount=1", f"bitcoin:{a0[:-1]}?amount=1", f"bitcoinx:{a0}", f"bitcoi:{a0}", a0,
+    for text in [f"bitcoin:%{ord(a0[0]):02x}{a0[1:]}", f"bitcoin:{a0[:-1]}%{ord(a0[-1]):02X}?amount=1", f"bitcoin:{a0}%20", f"bitcoin:%20{a0}", f"bitcoin:{a0}%00",      # the address is not percent-decoded
+                 f"BITCOIN:{a0.upper()}?amount=1", f"BitCoin:{a0}", f"bitcoin://{a0}", f"bitcoin:{a0}#frag", f"bitcoin:?amount=1", f"bitcoin:{a0[:-1]}?amount=1", f"bitcoinx:{a0}", f"bitcoi:{a0}", a0,
                  f" bitcoin:{a0}", f"bitcoin :{a0}", f"bitcoin:{a0} ", f"bitcoin:{a0}?", f"bitcoin:{a0}&amount=1", f"bitcoin:{a0}?amount=1?label=x", f"b\u0131tcoin:{a0}", f"bitco\u0130n:{a0}", f"bitcoin:{uri_addrs[2]}?label=QR",
                  f"bitcoin:{uri_addrs[2].lower()[:-2].upper() + uri_addrs[2][-2:].lower()}"]:
         parse_ev(text)
